@@ -104,7 +104,8 @@ fn apply(o: Obj, c: &Value, k: usize, salt: usize) -> Result<Obj, String> {
             match salt % 3 {
                 0 => for _ in 0..k { v.push_bit(bit()); },
                 1 => { let n = v.len() + k; v.resize(n, bit()); },
-                _ => { let mut left = k; while left > 0 { let w = left.min(64); unsafe { v.push_int(if bit() { u64::MAX } else { 0 }, w); } left -= w; } },
+                // integer pushes of 37 / 64 bits whose value is wider than the width (all ones): chunks straddle word boundaries
+                _ => { let mut left = k; let cw = if salt % 2 == 0 { 37 } else { 64 }; while left > 0 { let w = left.min(cw); unsafe { v.push_int(if bit() { u64::MAX } else { 0 }, w); } left -= w; } },
             }
             Obj::Raw(v)
         },
@@ -248,7 +249,8 @@ pub fn replay_case(case: &Value, scales: &[usize], own: &[String], tally: &mut T
                 let mut out: Vec<(&'static str, Value, Value)> = Vec::new();
                 let (len, ones, runs) = observe(&n);
                 out.push(("kind", json!(ekind), json!(kind_of(&n))));
-                out.push(("content [len, count_ones, runs of ones]", json!([elen, bv::ones_of(&eruns), bv::runs_json(&eruns)]), json!([len, ones, bv::runs_json(&runs)])));
+                out.push(("content [len, runs of ones]", json!([elen, bv::runs_json(&eruns)]), json!([len, bv::runs_json(&runs)])));
+                out.push(("count_ones", json!(bv::ones_of(&eruns)), json!(ones)));
                 if ekind == "plain" { out.push(("support flags", s["flags"].clone(), flags_of(&n))); }
                 let canon = canonical(ekind, elen, &eruns, &s["flags"]);
                 out.push(("== the object built directly from (kind, bits, supports)", json!(true), json!(same(&n, &canon))));
@@ -271,9 +273,16 @@ pub fn replay_case(case: &Value, scales: &[usize], own: &[String], tally: &mut T
                     let mut ok = true;
                     for (j, (what, exp, got)) in list.iter().enumerate() {
                         if owned { ok &= tally.check(hkey(&[ckey, k as u64, i as u64, j as u64]), elen > 0, &|| ctx(what), exp, got); }
-                        else if exp != got { ok = false; tally.notes.push(json!({"foreign": tag, "what": what})); tally.notes.truncate(5); }
+                        else if exp != got {
+                            // Not this property's step.  If the OBSERVABLE content is wrong, the rest of the behaviour starts from a state the
+                            // specification does not describe: stop (the owner's check reports it).  If only the hidden representation differs
+                            // (equality / bytes / answers against the directly built object), carry on: the next owned step receives an object
+                            // whose observable content is right, and answers for what it makes of it.
+                            if j < 2 { ok = false; }
+                            tally.notes.push(json!({"foreign": tag, "what": what})); tally.notes.truncate(5);
+                        }
                     }
-                    if !ok { break; }       // later steps of this behaviour start from a state the specification does not describe
+                    if !ok { break; }
                     prev_kind = kind_of(&n).to_string();
                     o = Some(n);
                 },
